@@ -292,6 +292,15 @@ func GenProgram(t *rapid.T, o GenOpts) *Program {
 			nv++
 		}
 	}
+	// declared register counts: padded independently, within what one compute unit can hold
+	if rapid.Bool().Draw(t, "padregs") {
+		used := vFirstValue + (nv - NumBuiltin) + 4
+		room := 248/perSIMD - used
+		if room > 0 {
+			p.PadVGPR = rapid.IntRange(0, room).Draw(t, "padvgpr")
+		}
+		p.PadSGPR = rapid.SampledFrom([]int{0, 8, 16, 40, 64, 70}).Draw(t, "padsgpr")
+	}
 	// always leave a trace of the last value
 	if !o.UniqueStores || !usedStore[[2]int{0, 0}] {
 		p.Ops = append(p.Ops, Op{Kind: "store", A: nv - 1, K: 0, Slot: 0})
